@@ -635,3 +635,20 @@ def w3(ctx):
 def w4(ctx):
     from .c09 import private_tree_obligations
     return private_tree_obligations(ctx)
+
+
+@rule("C01", "W5", floor=42, kind="N",
+      desc="a write to one resource never alters another: the path a request addresses is decoded exactly once and "
+           "names are used as sent (same obligations as C16/F1 and C16/N1) - a second percent-decoding or a "
+           "normalisation makes two different URLs address one member")
+def w5(ctx):
+    from .c16 import f1, opaque_name_obligations
+    return list(f1(ctx)) + list(opaque_name_obligations(ctx))
+
+
+@rule("C01", "W6", floor=1, kind="N",
+      desc="a request that is not answered with success changes nothing: the store write in the worker thread is "
+           "awaited to completion (same obligations as C08/G6)")
+def w6(ctx):
+    from .c08 import awaited_writes_obligations
+    return awaited_writes_obligations(ctx)
